@@ -219,6 +219,11 @@ class Ctx:
                                       "generated": r.generated, "distinct": r.distinct, "rejected": res[0]["nbad"],
                                       "wall_s": r.wall_s})
                 for l, clause in res[1:]:
+                    if clause.startswith("DRIFT:"):     # implementation-shaped model vs code: information only
+                        if len(self.drift) < 20:
+                            self.drift.append("%s: %s" % (clause[6:], json.dumps(_shorten(shards[k][l - 1], 300))))
+                        self.coverage_extra["model_drift_lines"] = self.coverage_extra.get("model_drift_lines", 0) + 1
+                        continue
                     bad.append((shards[k][l - 1], clause))
                 if res[0]["nbad"] > len(res) - 1:
                     self.notes.append("%d further rejected lines beyond the reporting cap" % (res[0]["nbad"] - len(res) + 1))
